@@ -6,6 +6,7 @@ import (
 	"io"
 	"mime"
 	"net/http"
+	"net/http/httptest"
 	"net/url"
 	"reflect"
 	"strings"
@@ -63,7 +64,7 @@ func c15Schema() *spec.Node {
 	}
 	dflt := str()
 	dflt.Mods = []spec.Mod{{Op: spec.MDefault, Val: "nested-default"}}
-	nested := structOf("v", probe(str()), "dflt", dflt, "rq", req(prim(spec.Int)))
+	nested := structOf("v", probe(str()), "dflt", dflt) // no required field here: destinations are compared on success only
 	nested.Fields[0].Tags = map[string]string{}
 	n := structOf("src", probe(req(str())), "only_b", probe(str()), "only_q", probe(str()), "list", probe(sliceOf(str())), "arr", probe(sliceOf(str())), "n", probe(prim(spec.Int)), "nested", nested)
 	n.Fields[4].Tags = map[string]string{"form": "arr[]", "query": "arr[]", "json": "arr"}
@@ -340,7 +341,61 @@ func canonPathC15(p string) string {
 	return p
 }
 
+// c15EmptyObject: the body {} is a record in which every field is absent - at every depth: the fields of nested structs get their
+// defaults and report their required values, exactly as for a body that merely lacks them.
+func c15EmptyObject(c *core.Ctx) bool {
+	type addr struct {
+		City    string `json:"city"`
+		Country string `json:"country"`
+		Zip     int    `json:"zip"`
+	}
+	type user struct {
+		Name string `json:"name"`
+		Addr addr   `json:"address"`
+		Meta *addr  `json:"meta"`
+	}
+	mk := func() *z.StructSchema {
+		a := func() *z.StructSchema {
+			return z.Struct(z.Schema{"city": z.String().Required(), "country": z.String().Default("nowhere"), "zip": z.Int()})
+		}
+		return z.Struct(z.Schema{"name": z.String().Default("anon"), "addr": a(), "meta": z.Ptr(a())})
+	}
+	want := ""
+	for i, body := range []string{`{"other":1}`, `{}`, ` {} `, `{"address":{}}`} {
+		r := httptest.NewRequest("POST", "/", strings.NewReader(body))
+		r.Header.Set("Content-Type", "application/json")
+		var u user
+		m := mk().Parse(zhttp.Request(r), &u)
+		c.Eval(1)
+		var codes []string
+		for k, l := range m {
+			if k != "$first" {
+				for _, e := range l {
+					codes = append(codes, e.Code) // the keys of {} are the known finding of C10: only the codes are compared here
+				}
+			}
+		}
+		got := fmt.Sprintf("%+v meta=%v issues=%v", u.Addr, u.Meta, codes) + " name=" + u.Name
+		if i == 0 {
+			want = got
+			if u.Addr.Country != "nowhere" || u.Name != "anon" || len(codes) != 1 || u.Meta != nil {
+				c.Violation("empty-object|baseline", map[string]any{"body": body, "observed": got})
+				return false
+			}
+			continue
+		}
+		if got != want {
+			c.Violation("empty-object-is-not-a-record-of-absent-fields", map[string]any{"schema": "{name: Default(anon), addr: Struct{city: Required, country: Default(nowhere), zip}, meta: Ptr(same struct)}", "body": body, "observed": got, "same_as_for_a_body_that_lacks_the_fields": want})
+			return false
+		}
+	}
+	return true
+}
+
 func (c15) RunCase(c *core.Ctx) {
+	if c.Case%400 == 5 && !c15EmptyObject(c) {
+		return
+	}
 	n := c15Schema()
 	if c.Case >= c15TableCases() {
 		c15Random(c, n)
